@@ -37,15 +37,31 @@ Clauses ==
        (IF Want("C12") THEN C!C12Below(Obs) ELSE {}) \cup
        (IF Want("C10") /\ Tr.hasTracked THEN C!C10Inst(Tracked) ELSE {})
 \* drift: disagreement with the operational model that no property clause forbids (reported, never a verdict)
+\* (the figures are compared as counts; a run that prints ratios only - instances_report_mode = ratio - or no comments at all -
+\*  disable_comments - is compared on structure)
+NoCounts == \A s \in Obs : s.n = -1
+\* (a disjunction line carries no figure of its own in the text)
+StripR(S) == {[s EXCEPT !.tcs = {[tc EXCEPT !.ratio = -1, !.abs = IF tc.ks # {} THEN -1 ELSE tc.abs,
+                                             !.com = {<<f[1], f[2], f[3], -1>> : f \in tc.com}] : tc \in s.tcs}] : s \in S}
+StripC(S) == {[s EXCEPT !.n = -1, !.tcs = {[tc EXCEPT !.abs = -1, !.com = IF Tr.pres.comments THEN {<<f[1], f[2], -1, -1>> : f \in tc.com} ELSE {}] : tc \in s.tcs}] : s \in S}
 Drift == IF Tr.status = "ok" /\ Tr.parse = "ok" /\ Want("drift") /\ ~C!OpTie
          THEN (LET out == C!OpOut IN IF C!OpCrashed(out) THEN {"drift.modelcrash"}
-                                     ELSE IF C!OpObs(out) = {[s EXCEPT !.tcs = {[tc EXCEPT !.ratio = -1, !.com = {<<f[1], f[2], f[3], -1>> : f \in tc.com}] : tc \in s.tcs}] : s \in Obs}
+                                     ELSE IF (IF NoCounts THEN StripC(StripR(C!OpObs(out))) = StripC(StripR(Obs)) ELSE StripR(C!OpObs(out)) = StripR(Obs))
                                           THEN {} ELSE {"drift.output"})
          ELSE {}
+\* stage conformance (reported like drift, never a verdict): the profile the implementation holds after its second pass is the
+\* profile of the specification's Profile action; the statements of every shape, direct and inverse together, are ordered by decreasing support
+\* (a stated-but-unclaimed invariant of the shexing stage)
+Profile == {<<r[1], r[2], r[3], r[4], r[5], r[6]>> : r \in ToSet(Tr.profile)}
+StageDrift ==
+  IF Tr.status # "ok" \/ ~Want("drift") THEN {}
+  ELSE (IF Tr.hasProfile /\ Profile # C!OpProfileRows THEN {"drift.profile"} ELSE {}) \cup
+       (IF \E i \in 1..Len(Tr.order) : \E a, b \in 1..Len(Tr.order[i]) : a < b /\ Tr.order[i][a][2] < Tr.order[i][b][2]
+        THEN {"drift.order"} ELSE {})
 Info == [strict |-> (Tr.status = "ok" /\ C!Strict), nkeys |-> Cardinality(C!LiveKeys)]
 
 Init == tid \in 1..Len(Traces)
 Next == UNCHANGED tid
 Spec == Init /\ [][Next]_tid
-Report == PrintT(<<"VERDICT", Tr.id, Clauses \cup Drift, Info>>)
+Report == PrintT(<<"VERDICT", Tr.id, Clauses \cup Drift \cup StageDrift, Info>>)
 =============================================================================
